@@ -324,7 +324,7 @@ BOUNDED = [
     ('compose', ['C01', 'C03', 'C09', 'C12'], 'compose:64,0', 'compose:96,1',
      'composition of the PUBLIC constructors (C12) against the DFT definition: leaves Dft(1..7) and twelve fixed-size butterflies, both directions; depth 1: MixedRadix, MixedRadixSmall, GoodThomasAlgorithm(Small) over every ordered pair of leaves, Radix4 / Radix3::new_with_base (k <= 2), RadersAlgorithm (prime length), BluesteinsAlgorithm with the largest, second largest and smallest admissible length for the inner transform (inner length == 2 len - 1 included); composite length below the limit; thorough: depth 2 over a third of the depth-1 nodes and the small leaves; each built within its documented precondition (a panic is reported) and run through the four entry points with NaN-filled exact scratch'),
     ('primroot', ['C01', 'C06', 'C12', 'C14'], 'primroot:2000000', 'primroot:16777216',
-     'assumed contract of math_utils::primitive_root (the Verus unit prime_roots proves distinct_prime_factors; that the returned root is a generator - multiplicative order p - 1, which is what makes Rader\'s index maps permutations - needs the theory of cyclic groups): every prime below the limit, order checked with an independent factorization and exponentiation'),
+     'mathematical axiom behind math_utils::primitive_root (the Verus unit prime_roots proves distinct_prime_factors, modular_exponent and that primitive_root returns the least candidate passing the generator test; that such a candidate exists and has multiplicative order p - 1, which is what makes Rader\'s index maps permutations, needs the theory of cyclic groups): every prime below the limit, order checked with an independent factorization and exponentiation'),
     ('sqrt_limit', ['C04'], 'sqrt_limit', 'sqrt_limit', 'A-sqrt: ((m*m) as f32).sqrt() as usize >= m for every m < 2^24 on this CPU (exhaustive)'),
     ('MixedRadix', ['C08', 'C09', 'C12'], 'MixedRadix', 'MixedRadix', 'scratch-content independence (C08 iii) and panic-freedom of the real wrapper over contract-checking stubs; bound: inner lengths <= 4, inner scratch needs in {0,1,len-1,len,len+1,2len+3,3len^2+1}'),
     ('MixedRadixSmall', ['C08', 'C09', 'C12'], 'MixedRadixSmall', 'MixedRadixSmall', 'same, MixedRadixSmall'),
